@@ -7,6 +7,7 @@
  *                     N <birth> <recent> <c> nextretry(birth,c) with the global recent
  *                     H <ops>                ops = comma separated  i<dt> | d
  *                     S <lifetime> <script>  daemon history (see hist_run)
+ *                     P <recent> <now> <pqfail> <files> <ncalls>   pqadd()/pqfail scenario (see p_case)
  *
  * output lines:
  *   Q <lo> <hi> <r>                 squareroot(x) == r for every x in [lo,hi] (maximal run, every x evaluated)
@@ -14,6 +15,8 @@
  *   H <ops> <mins> <final>          mins  = what prioq_min returned before each 'd' ("e" if empty), dt:id,…
  *                                   final = the heap array p[0..len) after the last op
  *   S <lifetime> <script> <events>  events of the history (see hist_run)
+ *   P <recent> <now> <pqfail> <files> <ncalls> <heaps>   the four heaps after each pass_do() call
+ *   K <name> <value>                a constant of the source
  *
  * squareroot() is static in qmail-send.c, hence the #include of the unmodified source. time() is
  * replaced by the harness's virtual clock; logging (qsutil.o) is replaced by a sink. */
@@ -27,14 +30,40 @@
 #include <limits.h>
 #include <stdarg.h>
 
+#include <unistd.h>
+#include "open.h"
+
 static long h_clock;
 static time_t h_time(time_t *p) { if (p) *p = h_clock; return h_clock; }
+
+/* ---- fault injection: stat()/unlink()/open_read() of a poisoned path fail with EIO (the libc call is
+ * replaced by a wrapper inside the included source only; everything else goes to the real call) */
+#define HPOISON 40
+static char h_poison[3][HPOISON][96];   /* 0 = stat, 1 = unlink, 2 = open_read */
+static int h_npoison[3];
+static long h_faults_hit;
+static int h_poisoned(int k, const char *p) {
+  for (int i = 0; i < h_npoison[k]; i++) if (!strcmp(h_poison[k][i], p)) { errno = EIO; h_faults_hit++; return 1; }
+  return 0;
+}
+static void h_poison_add(int k, const char *p) { if (h_npoison[k] < HPOISON) { strncpy(h_poison[k][h_npoison[k]], p, 95); h_npoison[k]++; } }
+static void h_poison_clear(void) { h_npoison[0] = h_npoison[1] = h_npoison[2] = 0; }
+static int h_stat(const char *p, struct stat *st) { if (h_poisoned(0, p)) return -1; return stat(p, st); }
+static int h_unlink(const char *p) { if (h_poisoned(1, p)) return -1; return unlink(p); }
+static int h_open_read(const char *p) { if (h_poisoned(2, p)) return -1; return open_read(p); }
+
 #define time(x) h_time(x)
+#define stat(p,b) h_stat(p,b)
+#define unlink(p) h_unlink(p)
+#define open_read(p) h_open_read(p)
 #define _exit(x) h_exit(x)
 #define main qmail_send_main
 #include "qmail-send.c"
 #undef main
 #undef _exit
+#undef open_read
+#undef unlink
+#undef stat
 #undef time
 
 /* ---- replacement of qsutil.o: the daemon's log goes to a buffer */
@@ -132,8 +161,10 @@ int main(int argc, char **argv) {
       if (line[0] == 'Q') { long lo, hi; if (sscanf(line + 1, "%ld %ld", &lo, &hi) == 2 && lo <= hi) q_range(lo, hi); }
       else if (line[0] == 'N') { long b, r; int c; if (sscanf(line + 1, "%ld %ld %d", &b, &r, &c) == 3 && (c == 0 || c == 1)) n_case(b, r, c); }
       else if (line[0] == 'H') { char *p = line + 1; while (*p == ' ') p++; char *e = strchr(p, ' '); if (e) *e = 0; int n = parse_ops(p, opsbuf, MAXOPS); h_case(opsbuf, n); }
+      else if (line[0] == 'P') { long rc, nw; char fq[1024], fs[1024]; int nc; if (sscanf(line + 1, "%ld %ld %1023s %1023s %d", &rc, &nw, fq, fs, &nc) == 5 && nc >= 0 && nc <= 16) p_case(rc, nw, fq, fs, nc); }
       else if (line[0] == 'S') { long lt; int off = 0; if (sscanf(line + 1, "%ld %n", &lt, &off) >= 1 && off) { char *p = line + 1 + off; char *e = strchr(p, ' '); if (e) *e = 0; hist_run(lt, p); } }
     }
+    fprintf(h_out, "K SLEEP_SYSFAIL %d\n", (int)SLEEP_SYSFAIL);
     hist_cleanup();
     fflush(h_out);
     return 0;
@@ -182,6 +213,20 @@ int main(int argc, char **argv) {
         }
       }
     }
+    if (shard == 0) {   /* the edges of the range where no `long` operation of nextretry overflows (nextretryOk) */
+      static const long ages[] = { 0, 1, 99, 100, 10000, 4294967295L, 4294967296L, 4296147024L, 4297458025L };
+      for (int c = 0; c < 2; c++) {
+        for (long d = 0; d < 3; d++) {
+          long b = LONG_MAX - 4297458025L - d;        /* birth + (65535+20)^2 <= LONG_MAX */
+          for (unsigned k = 0; k < sizeof ages / sizeof *ages; k++) n_case(b, b + ages[k], c);
+          n_case(b, b - 1 - d, c);
+          b = LONG_MIN + d;                            /* recent - birth fits while recent <= LONG_MAX + birth */
+          for (unsigned k = 0; k < sizeof ages / sizeof *ages; k++) n_case(b, b + ages[k], c);
+          n_case(b, b + LONG_MAX, c);
+          n_case(-(1L << 62) + d, (1L << 62) - 1, c);
+        }
+      }
+    }
     for (int r = 0; r < 20000; r++) {
       long b = (long)(h_rand() % 4000000000ull) - 1000000;
       long age = (r & 1) ? (long)(h_rand() % 1300000) : (long)(h_rand() % (1ull << 32));
@@ -221,6 +266,8 @@ int main(int argc, char **argv) {
 
   /* ---- daemon histories */
   hist_generate(nhist, shard, nshards);
+  p_generate(nhist / 4 + 16, shard, nshards);
+  if (shard == 0) fprintf(h_out, "K SLEEP_SYSFAIL %d\n", (int)SLEEP_SYSFAIL);
   hist_cleanup();
   fflush(h_out);
   return 0;
